@@ -224,7 +224,7 @@ def worker(job):
 
 def run(check):
     rng = random.Random(check.seed + 77)
-    total = int((600 if check.thorough else 48) * check.scale)
+    total = int((600 if check.thorough else 96) * check.scale)
     cases = [gen_case(rng) for _ in range(total)]
     nj = check.jobs
     jobs = [{'cases': cases[i::nj]} for i in range(nj) if cases[i::nj]]
